@@ -292,14 +292,11 @@ fn dispatch_body_ev(nconn: usize, only: u8) {
         }
     }
     core::mem::forget(m);
-    if only == 6 {
-        kani::cover!((m1 || nconn == 1 && m0) && et == VsockEventType::CreditRequest);
-        kani::cover!(!m0 && !m1 && et == VsockEventType::ConnectionRequest && dst.cid == GCID && dst.port == lp);
-        kani::cover!(m0 && et == VsockEventType::Disconnected { reason: DisconnectReason::Shutdown } && s0[0].2 > 0);
-    } else {
-        kani::cover!(m0 && dst.port != lp);
-        kani::cover!(!m0 && !m1 && dst.cid == GCID && dst.port == lp);
-    }
+    kani::cover!(only != 6 || ((m1 || nconn == 1 && m0) && et == VsockEventType::CreditRequest));
+    kani::cover!(only != 6 || (!m0 && !m1 && et == VsockEventType::ConnectionRequest && dst.cid == GCID && dst.port == lp));
+    kani::cover!(only != 6 || (m0 && et == VsockEventType::Disconnected { reason: DisconnectReason::Shutdown } && s0[0].2 > 0));
+    kani::cover!(only == 6 || (m0 && dst.port != lp));
+    kani::cover!(only == 6 || (!m0 && !m1 && dst.cid == GCID && dst.port == lp));
 }
 
 // recv: drains in order, forwards exactly what it drained, closes a shut-down connection once drained
